@@ -496,7 +496,9 @@ theorem C13_single_push_when_nothing_reported (live : List Mem) (count1 count2 :
 /-- the shapes the model follows, regenerated from the source on every run -/
 theorem facts_tie : Facts.distribute_prunes_then_appends_ring_owners = true ∧
     Facts.only_oldest_member_computes_and_receivers_verify_sender = true ∧
-    Facts.leftover_report_is_pushed_again = true := by decide
+    Facts.leftover_report_is_pushed_again = true ∧
+    Facts.distribute_works_on_a_copy_of_the_owners = true ∧
+    Facts.periodic_push_runs_on_every_member = true := by decide
 
 /-! Non-vacuity: three live members; member (1,11) re-joined as (1,12); previous owners [(1,11), (0,10)],
     member 0 reports 5 keys; the ring picks member 2. -/
